@@ -140,9 +140,25 @@ lib_fini(bool report)
 	nlisten = 0;
 }
 
+#include <signal.h>
+#include <unistd.h>
+// watchdog: one harness line never needs more than a few milliseconds of CPU; if a line
+// takes a minute of wall time the library is stuck (live-lock or an undetected wait)
+static void
+on_alarm(int sig)
+{
+	(void) sig;
+	static const char msg[] = "HANG\n";
+	fflush(stdout);
+	(void) !write(1, msg, sizeof(msg) - 1);
+	_exit(4);
+}
+
 int
 main(void)
 {
+	setvbuf(stdout, NULL, _IOLBF, 0);
+	signal(SIGALRM, on_alarm);
 	lib_init();
 	for (int i = 0; i < NAIO; i++) {
 		nng_aio_alloc(&aios[i], aio_cb, (void *) (intptr_t) i);
@@ -151,6 +167,7 @@ main(void)
 		if (vn == 0) {
 			continue;
 		}
+		alarm(90);
 		const char *op = vw[0];
 #define IS(s) (strcmp(op, s) == 0)
 		if (IS("reset") || IS("fini")) {
@@ -163,6 +180,18 @@ main(void)
 			if (IS("reset")) {
 				printf("reset\n");
 			}
+			continue;
+		}
+		if (IS("failalloc") && vn == 2) {
+			// the k-th allocation the library makes from now on fails (one shot; 0 = off)
+			valloc_fail_at(atol(vw[1]));
+			printf("ok\n");
+			continue;
+		}
+		if (IS("allocstat")) {
+			unsigned long live, bytes, bad, tot;
+			valloc_stats(&live, &bytes, &bad, &tot);
+			printf("allocs total=%lu fired=%lu\n", tot, valloc_failures_fired());
 			continue;
 		}
 		if (IS("sched") && vn >= 2) {
@@ -235,9 +264,20 @@ main(void)
 				free(b);
 				continue;
 			}
-			nng_msg_alloc(&m, 0);
-			nng_msg_header_append(m, h, hl);
-			nng_msg_append(m, b, bl);
+			if (nng_msg_alloc(&m, 0) != 0) {
+				// the injected allocation failure hit the harness's own message
+				free(h);
+				free(b);
+				printf("harness-enomem\n");
+				continue;
+			}
+			if (nng_msg_header_append(m, h, hl) != 0 || nng_msg_append(m, b, bl) != 0) {
+				nng_msg_free(m);
+				free(h);
+				free(b);
+				printf("harness-enomem\n");
+				continue;
+			}
 			free(h);
 			free(b);
 			if (strcmp(vw[5], "nb") == 0) {
